@@ -5,6 +5,7 @@
   `Factor a` is the first half of the property for a dense record: `M = L·R` and `R = Lᴴ`.
 -/
 import NiftyVerif.Lemmas.LikelihoodReReal
+import NiftyVerif.Lemmas.LikelihoodReND
 import Mathlib.Tactic.Linarith
 
 namespace NiftyVerif.C12
@@ -173,6 +174,63 @@ theorem categorical_global_sum_defect {K : Type} [CommRing K] {n : Nat} (s : Fin
 
 /-- witness of the defect: two stacked one-category "distributions" (`p = (1,1)`, `B = 2`): off-diagonal entry `1 ≠ 0` -/
 example : (2 - 1 : ℚ) * (((1 : ℚ) * 1) * (1 * 1)) ≠ 0 := by norm_num
+
+/-! ## NDVariableCovarianceGaussian, one `d × d` block, every `d` -/
+
+/-- `S` = `sqrtm(prim_mat)`, `Si` = what `solve(sqrtm(prim_mat), ·)` applies, `Ai` = what `solve(prim_mat, ·)` applies;
+    hypotheses: `S` is a symmetric square root of `A` and `Si` its inverse (what the eigen-decomposition based
+    `sqrtm`/`solve` of tree_math/util.py deliver for symmetric positive definite input — executed, not modelled).
+    Then: `Ai = A⁻¹`; on the matrix block `L (Lᴴ T) = M T` where `Lᴴ` is the Frobenius adjoint of `L`;
+    on the mean block `L Lᴴ = A⁻¹` (covariance parametrisation) resp. `A` (precision parametrisation). -/
+theorem L_Lh_eq_M_ndvc {d : Nat} (A Ai S Si : Fin d → Fin d → ℝ)
+    (hSS : Matrix.of S * Matrix.of S = Matrix.of A) (hSiS : Matrix.of Si * Matrix.of S = 1)
+    (hsymS : (Matrix.of S)ᵀ = Matrix.of S) (hsymSi : (Matrix.of Si)ᵀ = Matrix.of Si)
+    (hAi : Matrix.of Ai = Matrix.of Si * Matrix.of Si) :
+    Matrix.of Ai * Matrix.of A = 1 ∧
+    (∀ T, ndLmat Si (ndLmat (mT Si) T) = ndMmat Ai T) ∧
+    (∀ T U : Fin d → Fin d → ℝ,
+      ∑ i, ∑ j, ndLmat Si T i j * U i j = ∑ i, ∑ j, T i j * ndLmat (mT Si) U i j) ∧
+    (∀ t, ndLmean true S Si (ndLmean true (mT S) (mT Si) t) = ndMmean true A Ai t) ∧
+    (∀ t, ndLmean false S Si (ndLmean false (mT S) (mT Si) t) = ndMmean false A Ai t) := by
+  have hc : (Real.sqrt 2)⁻¹ * (Real.sqrt 2)⁻¹ = (1 / 2 : ℝ) := by
+    rw [← mul_inv, Real.mul_self_sqrt (by norm_num)]; norm_num
+  refine ⟨?_, ?_, ?_, ?_, ?_⟩
+  · rw [hAi, ← hSS, Matrix.mul_assoc, ← Matrix.mul_assoc (Matrix.of Si) (Matrix.of S) (Matrix.of S), hSiS,
+      Matrix.one_mul, hSiS]
+  · intro T
+    have h : Matrix.of (ndLmat Si (ndLmat (mT Si) T)) = Matrix.of (ndMmat Ai T) := by
+      rw [ndLmat_eq, ndLmat_eq, ndMmat_eq, mT_eq, hsymSi, hAi]
+      simp only [Matrix.mul_smul, Matrix.smul_mul, smul_smul, Matrix.mul_assoc, hc]
+    exact h
+  · intro T U
+    have key : ∀ X Y Z : Matrix (Fin d) (Fin d) ℝ, Matrix.trace (X * (Y * X) * Z) = Matrix.trace (Y * (X * Z * X)) := by
+      intro X Y Z
+      rw [Matrix.mul_assoc X (Y * X) Z, Matrix.trace_mul_comm]
+      simp only [Matrix.mul_assoc]
+    have h1 := frob_eq_trace (Matrix.of (ndLmat Si T)) (Matrix.of U)
+    have h2 := frob_eq_trace (Matrix.of T) (Matrix.of (ndLmat (mT Si) U))
+    simp only [Matrix.of_apply] at h1 h2
+    rw [h1, h2, ndLmat_eq, ndLmat_eq, mT_eq, hsymSi]
+    simp only [Matrix.transpose_smul, Matrix.transpose_mul, hsymSi, Matrix.smul_mul, Matrix.mul_smul,
+      Matrix.trace_smul]
+    rw [key]
+  · intro t
+    have e1 : ndLmean true (mT S) (mT Si) t = Matrix.mulVec (Matrix.of (mT Si)) t := ndMean_eq (mT Si) t
+    have e2 : ∀ v, ndLmean true S Si v = Matrix.mulVec (Matrix.of Si) v := fun v => ndMean_eq Si v
+    have e3 : ndMmean true A Ai t = Matrix.mulVec (Matrix.of Ai) t := ndMean_eq Ai t
+    rw [e1, e2, e3, mT_eq, hsymSi, Matrix.mulVec_mulVec, ← hAi]
+  · intro t
+    have e1 : ndLmean false (mT S) (mT Si) t = Matrix.mulVec (Matrix.of (mT S)) t := ndMean_eq (mT S) t
+    have e2 : ∀ v, ndLmean false S Si v = Matrix.mulVec (Matrix.of S) v := fun v => ndMean_eq S v
+    have e3 : ndMmean false A Ai t = Matrix.mulVec (Matrix.of A) t := ndMean_eq A t
+    rw [e1, e2, e3, mT_eq, hsymS, Matrix.mulVec_mulVec, hSS]
+
+/-- non-vacuity: `d = 1`, `A = 4`, `S = 2`, `Si = 1/2`, `Ai = 1/4` -/
+example : ∃ A Ai S Si : Fin 1 → Fin 1 → ℝ,
+    Matrix.of S * Matrix.of S = Matrix.of A ∧ Matrix.of Si * Matrix.of S = 1 ∧
+    (Matrix.of S)ᵀ = Matrix.of S ∧ (Matrix.of Si)ᵀ = Matrix.of Si ∧ Matrix.of Ai = Matrix.of Si * Matrix.of Si := by
+  refine ⟨fun _ _ => 4, fun _ _ => 1 / 4, fun _ _ => 2, fun _ _ => 1 / 2, ?_, ?_, ?_, ?_, ?_⟩ <;>
+    (ext i j; simp [Matrix.mul_apply, Matrix.one_apply, Subsingleton.elim i j] <;> norm_num)
 
 /-! ## `L` is the pull-back of the transformation -/
 
